@@ -10,6 +10,15 @@ CHECKS = {
  "C08": dict(engine="enum", technique="bounded-exhaustive enumeration of bucket lists x observation sequences on the real code vs. fold/count reference",
    text="Every bucket list of length <=3 and every observation sequence of length <=3 (thorough 4) over a 9-class f64 pool is run through 7 API paths of the real histogram code and compared with a reference; exhaustive within those bounds.",
    note="f64 values outside the pool classes, lists longer than 3; reference model in harness/src/bin/c08.rs is trusted", ref="6 C08"),
+ "C05": dict(engine="enum", technique="bounded-exhaustive enumeration of label-value tuples (all of POOL^arity and all ordered pairs) on the real vectors vs. a map reference",
+   text="All tuples over an 18-string boundary-shifting pool (arity 1-3, quick: 11 strings for arity 3), 8 vector kinds incl. local variants, list and map request forms in every key order, wrong-arity/wrong-key requests and removal are executed on the real code and compared child by child with a BTreeMap reference; exhaustive within the pool.",
+   note="strings outside the pool; true 64-bit FNV collisions are out of reach", ref="6 C05"),
+ "C09": dict(engine="enum", technique="bounded-exhaustive enumeration of strings in every name position, label clashes and registry settings vs. regex-equivalent predicate; gather output validated",
+   text="Every string of length <=3 over a 12-character pool in every name position of 12 constructors, all (namespace|subsystem,name) pairs, all const/variable label assignments over {a,b,le}, registry prefix/common-label settings; each accepted metric is registered, sampled, gathered and the gathered names validated.",
+   note="characters outside the pool, names longer than 3; common label `le` + histogram not judged", ref="6 C09"),
+ "C17": dict(engine="enum", technique="bounded-exhaustive argument sweep of every Result-returning API under catch_unwind (debug assertions + overflow checks on)",
+   text="Every listed fallible API is called over explicit finite argument pools (strings, label lists/maps of every cardinality class, f64 bucket lists/parameters, registry histories, families of every MetricType incl. mismatched payloads, failing writers); each call must return, and documented-invalid input must give Err.",
+   note="memory-exhausting sizes excluded; APIs documented to panic excluded", ref="6 C17"),
 }
 
 NOT_YET = "check not built yet in this round; planned per DESIGN.md section 6"
